@@ -162,7 +162,8 @@ class Check:
             # a listed finding that no longer fires is not an error: the defect may have been
             # repaired.  It is reported so that the file can be updated.
             out.append(f"NOTE property={self.pid} listed known finding no longer fires: {k[0]} {k[1]}")
-        if violations and code == 0:
+        if violations:
+            # a definite violation is reported as such even when another rule could not be evaluated
             code = 1
         for ob in violations:
             rp = self._replay_path(ob)
